@@ -55,6 +55,7 @@ type globalTable struct {
 }
 
 type fnCtxX struct {
+	externAs  map[string]*fnType       // the result type an external function is given at the call being translated (objInit)
 	objByObj  map[*ast.Object]*objInfo // object parameters and pooled objects, by the variable
 	objVar    map[string]*fnVar        // ... their variables, by name
 	poolOf    map[*ast.Object]string   // pooled objects: the pool variable
@@ -225,7 +226,9 @@ func isPoolPut(s ast.Node, pool string, obj *ast.Object) bool {
 }
 
 // pooledRecvOf: a function without receiver whose body opens with
-//   x := P.Get().(*T); defer P.Put(x)        (T a struct of the file)
+//
+//	x := P.Get().(*T); defer P.Put(x)        (T a struct of the file)
+//
 // and uses x only as x.f / x.M(...): x plays the receiver from there on.
 func (g *fnGen) pooledRecvOf(fd *ast.FuncDecl) *pooledInfo {
 	if fd == nil || fd.Recv != nil || fd.Body == nil || len(fd.Body.List) < 2 {
@@ -496,8 +499,83 @@ func (c *fnCtx) opaqueArg(a ast.Expr, want *fnType, pre *[]fnBind) string {
 	return "(" + x.name + " " + paren(y) + ")"
 }
 
+// objZero: the zero value of an object field that is a struct BY VALUE (cur bytes.Buffer left out
+// of a constructor literal): the argument <field>_zero : St_<field>
+func (c *fnCtx) objZero(t *fnType, at ast.Node) string {
+	for f, o := range c.objs {
+		if o.typ != t {
+			continue
+		}
+		if o.iface != nil || o.concrete || c.sx.objByObj != nil && c.sx.objVar[f] != nil {
+			break
+		}
+		if ts := c.foreignTypeSpec(o.pkg, o.tname); ts == nil {
+			break
+		} else if _, isStruct := ts.Type.(*ast.StructType); !isStruct {
+			break
+		}
+		if fv := c.fields[f]; fv == nil || !c.objFieldByValue(f) {
+			break
+		}
+		if len(c.loops) > 0 || c.lit != nil {
+			break
+		}
+		key := "zero:" + f
+		x := c.extras[key]
+		if x == nil {
+			x = c.extra(key, f+"_zero")
+			x.typ = &fnType{k: "raw", name: t.coq(), params: []*fnType{t}}
+			c.setExtraType(key, t.coq(), map[string]bool{t.name: true})
+		}
+		return x.name
+	}
+	c.lostAt(at, "zero value of an object (only a field that holds a struct of the standard library by value)")
+	return ""
+}
+
+// objFieldByValue: the receiver struct declares field f as pkg.T (not *pkg.T)
+func (c *fnCtx) objFieldByValue(f string) bool {
+	ts := c.g.structs[c.fn.recvType]
+	if ts == nil {
+		return false
+	}
+	_, types := structFields(ts.Type.(*ast.StructType))
+	_, isSel := types[f].(*ast.SelectorExpr)
+	return isSel
+}
+
+// objInit: the value a constructor literal gives an object field: a call of a declared external
+// function (buf: bufio.NewReader(r)), whose result is taken to be that object: the function
+// argument pkg_F : args -> res St_<field>
+func (c *fnCtx) objInit(fv *fnVar, e ast.Expr, pre *[]fnBind) string {
+	call, ok := e.(*ast.CallExpr)
+	key := ""
+	if ok {
+		key = c.externKey(call)
+	}
+	if key == "" {
+		c.lostAt(e, "value %s of an object field (only a call of a function declared extern:)", src(e))
+	}
+	if c.sx.externAs == nil {
+		c.sx.externAs = map[string]*fnType{}
+	}
+	if c.extras[key] == nil {
+		c.extra(key, strings.ReplaceAll(key, ".", "_")) // the literal of `return &T{...}` is not part of the scanned body
+	}
+	c.sx.externAs[key] = fv.typ
+	defer delete(c.sx.externAs, key)
+	vals, ts := c.externCall(key, call, pre)
+	if len(vals) != 1 || ts[0] != fv.typ {
+		c.lostAt(e, "value %s of an object field", src(e))
+	}
+	return vals[0]
+}
+
 // externResType: a result type of the external function key, read inside its package
 func (c *fnCtx) externResType(key string, e ast.Expr) *fnType {
+	if t := c.sx.externAs[key]; t != nil {
+		return t // the call initialises an object field: the result is that object
+	}
 	saved := c.foreignPkg
 	defer func() { c.foreignPkg = saved }()
 	if i := strings.IndexByte(key, '.'); i > 0 {
